@@ -380,6 +380,12 @@ def gen_adt(g, kind, words):
             out.append(txt)
         if dropped:
             g.dropped.append("%s %s: fields dropped by projection: %s" % (kind, name, ", ".join(dropped)))
+        if opts.get("ghost"):
+            # ghost state added to the verified copy of the struct (erased at run time; stated in the evidence)
+            for gf in opts["ghost"].split(","):
+                gname, gty = gf.split(":", 1)
+                out.append("pub %s: %s" % (gname, gty))
+            g.dropped.append("%s %s: ghost field(s) added for the proof: %s" % (kind, name, opts["ghost"]))
         derive = opts.get("derive")
         if derive:
             g.add("#[derive(%s)]" % derive)
